@@ -280,7 +280,8 @@ def check_compiled(ctx, stories, exe_std, exe_stream, nvalidate):
             fails[key].append((det, src))
             impl_bad[i] = key
     # verified validator on a subset (all stories the implementation flagged + a prefix of the rest)
-    pick = sorted(impl_bad)[:40] + [i for i in range(len(stories)) if i not in impl_bad][:nvalidate]
+    shallow = [i for i in range(len(stories)) if json_depth(stories[i][2]) < 120 and len(stories[i][2]) < 60000]
+    pick = [i for i in sorted(impl_bad) if i in set(shallow)][:40] + [i for i in shallow if i not in impl_bad][:nvalidate]
     verdicts = validator_verdicts(ctx, [stories[i][2] for i in pick])
     nval = 0
     if verdicts is not None:
